@@ -37,14 +37,14 @@ Theorem exported_record_shows_fields_as_supplied : forall c k mm act h l,
 Proof. exact ProofsProps.log_fields_as_supplied. Qed.
 Print Assumptions exported_record_shows_fields_as_supplied.
 
-(* open finding F29: EventId{id} (no name), also behind Log(severity, int64_t id, ...): the process dies in the trait.
-   Full statement ("every combination of arguments is exported"): refuted by this witness; the theorems above hold for
-   every argument list that reaches the record. *)
-Theorem log_fields_as_supplied_refuted_by_F29 :
-  run_case f29_witness = [tag "CRASH"] /\
-  check_case f29_witness (run_case f29_witness) = fail "log_fields_as_supplied:event_id_without_name_crash".
-Proof. exact ProofsProps.log_fields_as_supplied_refuted_by_F29. Qed.
-Print Assumptions log_fields_as_supplied_refuted_by_F29.
+(* F29 (repaired in /repo, be9979e): an EventId WITHOUT a name - EventId{id}, also behind Log(severity, int64_t id, ...) and
+   the Trace()..Fatal(int64_t id, ...) wrappers - used to crash in the setter trait; it is the id with the empty name,
+   after any other arguments *)
+Theorem event_id_without_name_is_empty_name : forall act h id,
+  r_eid (build act (h ++ [AEid id None])) = id /\ r_ename (build act (h ++ [AEid id None])) = [] /\
+  log_args 3 9%Z id [] (VStr 0 1) [] = Some [ASev 9%Z; AEid id None; ABody BSv (VStr 0 1); AAttrs HKvi []].
+Proof. exact ProofsProps.event_id_without_name_is_empty_name. Qed.
+Print Assumptions event_id_without_name_is_empty_name.
 
 (* "... reaches every configured processor's exporter exactly once": EmitLogRecord(args...) through an enabled logger
    appends, for every configured processor in order, exactly one entry holding the record "created on this thread now,
@@ -146,14 +146,13 @@ Proof. exact ident_none. Qed.
 Print Assumptions no_span_values.
 
 (* "A null record is ignored": an explicit null pointer, a pointer that was already emitted, and
-   EmitLogRecord(std::move(null), args...) - no export, nothing changes, not even a crashing argument is evaluated *)
+   EmitLogRecord(std::move(null), args...) - no export, nothing changes *)
 Theorem null_ignored : forall c st t l st',
   (lstep c st (LEmitNull t l) = Ok st' -> s_exp st' = s_exp st /\ s_slots st' = s_slots st) /\
   (forall r, nth_error (s_slots st) r = Some RNull -> lstep c st (LEmit t l r) = Ok st' ->
              s_exp st' = s_exp st /\ s_slots st' = s_slots st) /\
   (forall r args, nth_error (s_slots st) r = Some RNull ->
-             lstep c st (LEmitRV t l r args) <> Crash /\
-             (lstep c st (LEmitRV t l r args) = Ok st' -> s_exp st' = s_exp st /\ nth_error (s_slots st') r = Some RNull)).
+             lstep c st (LEmitRV t l r args) = Ok st' -> s_exp st' = s_exp st /\ nth_error (s_slots st') r = Some RNull).
 Proof. exact ProofsProps.null_ignored. Qed.
 Print Assumptions null_ignored.
 
@@ -199,15 +198,15 @@ Proof. exact run_sim. Qed.
 Print Assumptions model_refines_spec_machine.
 
 (* the checker that ./check runs on the implementation's observations, run on the model's observation of ANY case that
-   parses, reports nothing but the open findings F15 / F29 ... *)
+   parses, reports nothing but the open finding F15 ... *)
 Theorem model_meets_spec_modulo_known_findings : forall l k, parse_case l = Some k ->
   forall t, In t (run_spec l (run_model l)) -> is_known t = true.
 Proof. intros l k P. exact (proj1 (model_meets_spec_wire l k P)). Qed.
 Print Assumptions model_meets_spec_modulo_known_findings.
 
-(* ... and nothing at all when the caller leaves its buffers alone and no nameless EventId is used *)
+(* ... and nothing at all when the caller leaves its buffers alone *)
 Theorem model_meets_spec : forall l k, parse_case l = Some k ->
-  existsb has_nameless (k_ops k) = false -> forallb (fun o => negb (is_mut o)) (k_ops k) = true ->
+  forallb (fun o => negb (is_mut o)) (k_ops k) = true ->
   run_spec l (run_model l) = [].
 Proof. intros l k P. exact (proj2 (model_meets_spec_wire l k P)). Qed.
 Print Assumptions model_meets_spec.
@@ -215,7 +214,7 @@ Print Assumptions model_meets_spec.
 (* ... and nothing at all, whatever the caller overwrites and whenever, when every body and attribute value the program
    supplies is a scalar: the proved part of log_independent_of_later_mutation over whole programs *)
 Theorem model_meets_spec_scalar_values : forall l k, parse_case l = Some k ->
-  existsb has_nameless (k_ops k) = false -> forallb op_scalar (k_ops k) = true ->
+  forallb op_scalar (k_ops k) = true ->
   run_spec l (run_model l) = [].
-Proof. intros l k P N S. unfold run_spec, run_model. rewrite P. exact (model_meets_spec_scalar k N S). Qed.
+Proof. intros l k P S. unfold run_spec, run_model. rewrite P. exact (model_meets_spec_scalar k S). Qed.
 Print Assumptions model_meets_spec_scalar_values.
